@@ -99,6 +99,15 @@ def run(ctx):
     # ---- R4 (consumers): the parsed value is a number in the base units of the spelling used; wherever a consumer
     # compares or adds it, the other operand must be in those same units for every spelling
     consumers(ctx, 'C14.R4')
+    # the specific activity of an enzyme means the same written as 'U/g' or as 'g/U' (factory typing of C06), and a
+    # quantity in moles is measured against the moles of the source (the measure table of the transfer)
+    from . import c06 as _c06
+    before_ = len(ctx.obs)
+    _c06.factories(ctx)
+    for o_ in ctx.obs[before_:]:
+        o_.rule = 'C14.R4'
+    from .c02 import transfer_measures as _tm
+    _tm(ctx, 'C14.R2', units=False)
     # ---- R6 a parsed quantity whose unit is discarded must not be relabelled
     for q in ('Container.__init__', 'Plate.__init__'):
         sc = scan_ctor(ctx, q)
